@@ -32,13 +32,22 @@ try:
         rc, out = sh("/venv/bin/python -m pytest -q -p no:cacheprovider --timeout=900 2>&1 | tail -3")
         res["suite"] = out.strip().splitlines()[-1] if out.strip() else ""
     res["checks"] = {}
+    # the checks run from a private snapshot of /verif, so editing the harness meanwhile cannot disturb them
+    snap = "/tmp/wt/vsnap-%d" % os.getpid()
+    if a.checks:
+        rev = os.environ.get("MUTANT_VERIF_REV")
+        if rev:
+            sh("mkdir -p %s && git -C /verif archive %s | tar -x -C %s" % (snap, rev, snap), cwd="/")
+        else:
+            sh("mkdir -p %s && rsync -a --exclude .git --exclude .work --exclude .proto --exclude seeded --exclude evidence --exclude replays --exclude __pycache__ /verif/ %s/" % (snap, snap), cwd="/")
     for c in [c for c in a.checks.split(",") if c]:
         t0 = time.time()
-        rc, out = sh("./check %s --tier %s" % (c, a.tier), cwd="/verif", env={"VERIF_REPO": wt})
+        rc, out = sh("./check %s --tier %s" % (c, a.tier), cwd=snap, env={"VERIF_REPO": wt})
         viol = [l for l in out.splitlines() if l.startswith("VIOLATION")]
         res["checks"][c] = {"rc": rc, "n_viol": len(viol), "first": [v[:300] for v in viol[:2]], "s": round(time.time() - t0, 1)}
 finally:
     sh("git worktree remove --force %s" % wt, cwd="/repo")
+    shutil.rmtree("/tmp/wt/vsnap-%d" % os.getpid(), ignore_errors=True)
 if a.meta:
     mp = os.path.join(d, "meta.json")
     meta = json.load(open(mp)) if os.path.exists(mp) else {}
